@@ -162,53 +162,71 @@ class _Quadrature(torch.autograd.Function):
         nparams = ctx.nparams
         params = allparams[:nparams]
         fcn = ctx.fcn
+        grad_enabled = torch.is_grad_enabled()
 
-        with fcn.disable_state_change():
+        # NOTE: the state change of fcn is not disabled here because the
+        # integrand of the backward quadrature puts copies of the parameters
+        # into fcn's object
 
-            # restore xl, and xu
-            xlxu_tensor = ctx.saved_tensors[:-ntensor_params]
-            if ctx.xltensor and ctx.xutensor:
-                xl, xu = xlxu_tensor
-            elif ctx.xltensor:
-                xl = xlxu_tensor[0]
-                xu = ctx.xlxu_nontensor[0]
-            elif ctx.xutensor:
-                xu = xlxu_tensor[0]
-                xl = ctx.xlxu_nontensor[0]
-            else:
-                xl, xu = ctx.xlxu_nontensor
+        # restore xl, and xu
+        xlxu_tensor = ctx.saved_tensors[:-ntensor_params]
+        if ctx.xltensor and ctx.xutensor:
+            xl, xu = xlxu_tensor
+        elif ctx.xltensor:
+            xl = xlxu_tensor[0]
+            xu = ctx.xlxu_nontensor[0]
+        elif ctx.xutensor:
+            xu = xlxu_tensor[0]
+            xl = ctx.xlxu_nontensor[0]
+        else:
+            xl, xu = ctx.xlxu_nontensor
 
-            # calculate the gradient for the boundaries
-            grad_xl = -torch.dot(grad_ys.reshape(-1), fcn(xl, *params).reshape(-1)
-                                 ).reshape(xl.shape) if ctx.xltensor else None
-            grad_xu = torch.dot(grad_ys.reshape(-1), fcn(xu, *params).reshape(-1)
-                                ).reshape(xu.shape) if ctx.xutensor else None
+        # calculate the gradient for the boundaries
+        grad_xl = -torch.dot(grad_ys.reshape(-1), fcn(xl, *params).reshape(-1)
+                             ).reshape(xl.shape) if ctx.xltensor else None
+        grad_xu = torch.dot(grad_ys.reshape(-1), fcn(xu, *params).reshape(-1)
+                            ).reshape(xu.shape) if ctx.xutensor else None
 
-            def new_fcn(x, *grad_y_params):
-                grad_ys = grad_y_params[0]
-                # not setting objparams and params because the params and objparams
-                # are still the same objects as the objects outside
-                with torch.enable_grad():
-                    f = fcn(x, *params)
-                dfdts = torch.autograd.grad(f, tensor_params,
-                                            grad_outputs=grad_ys,
-                                            retain_graph=True,
-                                            create_graph=torch.is_grad_enabled(),
-                                            allow_unused=True)
-                # parameters that do not influence the integrand have zero gradient
-                dfdts = tuple(torch.zeros_like(p) if dfdt is None else dfdt
-                              for (dfdt, p) in zip(dfdts, tensor_params))
-                return dfdts
+        def new_fcn(x, *grad_y_params):
+            grad_ys = grad_y_params[0]
+            # the tensor parameters are copies of the ones outside, so they
+            # have to be put in the parameters and in the function's object
+            tensor_params = grad_y_params[1:]
+            allparams = ctx.param_sep.reconstruct_params(tensor_params)
+            with torch.enable_grad(), fcn.useobjparams(allparams[nparams:]):
+                f = fcn(x, *allparams[:nparams])
+            # parameters that do not influence the integrand have zero gradient
+            idxs = [i for i, p in enumerate(tensor_params) if p.requires_grad]
+            dfdts = [torch.zeros_like(p) for p in tensor_params]
+            if f.requires_grad and len(idxs) > 0:
+                res = torch.autograd.grad(f, [tensor_params[i] for i in idxs],
+                                          grad_outputs=grad_ys,
+                                          retain_graph=True,
+                                          create_graph=torch.is_grad_enabled(),
+                                          allow_unused=True)
+                for i, dfdt in zip(idxs, res):
+                    if dfdt is not None:
+                        dfdts[i] = dfdt
+            return tuple(dfdts)
 
-            # reconstruct grad_params
-            # listing tensor_params in the params of quad to make sure it gets
-            # the gradient calculated
-            dydts = quad(new_fcn, xl, xu, params=(grad_ys, *tensor_params),
-                         bck_options=ctx.bck_config, **ctx.bck_config)
-            dydns = [None for _ in range(ctx.param_sep.nnontensors())]
-            grad_params = ctx.param_sep.reconstruct_params(dydts, dydns)
+        # the integrand is differentiated with respect to copies of the
+        # parameters, otherwise a parameter that is a function of another
+        # one (or, in higher order derivatives, of the incoming gradient)
+        # is differentiated through twice: here and by autograd
+        if grad_enabled:
+            tensor_params_copy = [p.clone() if p.requires_grad else p.detach() for p in tensor_params]
+        else:
+            tensor_params_copy = [p.detach().requires_grad_(p.requires_grad) for p in tensor_params]
 
-            return (None, grad_xl, grad_xu, None, None, None, None, None, *grad_params)
+        # reconstruct grad_params
+        # listing tensor_params in the params of quad to make sure it gets
+        # the gradient calculated
+        dydts = quad(new_fcn, xl, xu, params=(grad_ys, *tensor_params_copy),
+                     bck_options=ctx.bck_config, **ctx.bck_config)
+        dydns = [None for _ in range(ctx.param_sep.nnontensors())]
+        grad_params = ctx.param_sep.reconstruct_params(dydts, dydns)
+
+        return (None, grad_xl, grad_xu, None, None, None, None, None, *grad_params)
 
 def _isinf(x):
     return torch.any(torch.isinf(x))
